@@ -18,9 +18,12 @@ theorem fact_sweep_threshold :
     Facts.C13.sweepThresholdSeconds = 60 ∧ Facts.C13.sweepSelection = "updated_at < ?" := by decide
 
 /-- `transactionHelper` = first transaction, then `range r.MethodManagers` calling `Commit` and breaking on the first
-    error, then the clean-up transaction: the order `stepOp` models, with the map iteration order as an argument -/
+    error, then the clean-up transaction: the order `stepOp` models, with the map iteration order as an argument. There is
+    NO way out between the commit loop and the clean-up transaction (the only plain `if … return` comes after it): a failed
+    Commit is cleaned up at once whatever the reason — also when the request context is cancelled (`failed_commit_restores`;
+    skipping the clean-up is the `Fault.stop` behaviour, whose retry-before-the-sweep witness is the "busy" example below) -/
 theorem fact_transaction_helper_shape :
-    Facts.C13.transactionHelperShape = ["tx", "range:r.MethodManagers:Commit:break", "tx"] := by decide
+    Facts.C13.transactionHelperShape = ["tx", "range:r.MethodManagers:Commit:break", "tx", "if(err != nil):return"] := by decide
 
 /-- both clean-up paths (`transactionHelper` on a failed commit, `Rollback` on an uncommitted transaction) delete the
     version and — for a change that created the DID — the DID row (`deleteUncommittedChange`) -/
@@ -89,6 +92,11 @@ theorem fact_change_records_saved_inside_first_transaction :
 theorem fact_create_or_update_always_inserts :
     Facts.C13.createOrUpdateReturns = ["if err != nil && !errors.Is(): nil, err", "&doc, err"] ∧
     Facts.C13.createOrUpdateInserts = ["s.tx.Create(&doc)"] := by decide
+
+/-- manager.go `Create`: the DID rows are stored by the loop over `sqlDocs` (after the loop over the method managers has
+    finished) with `orm.DID{ID: sqlDoc.DID.ID, Subject: subject}` — the FINAL subject name (`storedSubject`) -/
+theorem fact_create_stores_final_subject :
+    Facts.C13.createStoresDID = "orm.DID{ID: sqlDoc.DID.ID, Subject: subject}" ∧ Facts.C13.createStoresInLoopOver = "sqlDocs" := by decide
 
 /-- the configuration the source describes today -/
 def cfgNow (methods : List Method) : Cfg :=
@@ -274,6 +282,23 @@ example :
     let w1 := (stepOp cfg w0 (.deactivate "s") [.nuts, .web] .none).1
     let r := stepOp cfg w1 (.deactivate "s") [.web, .nuts] .none
     r.2 = "err:deactivated" ∧ r.1.dids = w1.dids ∧ w1.dids.map (fun d => d.vers.map (·.n)) = [[1, 0], [1, 0]] := by decide
+
+/-- **one subject name for all DIDs of a Create, whatever order the method map is visited in** (v1 naming included): every
+    stored row carries the same name, and for two visiting orders over the same methods it is the same name -/
+theorem subject_naming_order_independent (legacy : Bool) (o1 o2 : List Method) (hperm : o1.Perm o2) (p n : String) (m m' : Method) :
+    storedSubject legacy o1 p n m = storedSubject legacy o2 p n m' := by
+  unfold storedSubject finalSubject
+  have : o1.contains .nuts = o2.contains .nuts := by
+    cases h1 : o1.contains .nuts <;> cases h2 : o2.contains .nuts <;> simp_all [hperm.mem_iff]
+  rw [this]
+
+/-- … which is NOT so for "the name known when the method is visited": with v1 naming and did:web visited before did:nuts,
+    the did:web DID would be stored under the provisional name and the subject would own only its did:nuts DID -/
+theorem naming_at_visit_depends_on_order :
+    subjectAtVisit true "uuid" "did:nuts:1" [.nuts, .web] .web = "did:nuts:1" ∧
+    subjectAtVisit true "uuid" "did:nuts:1" [.web, .nuts] .web = "uuid" ∧
+    subjectAtVisit true "uuid" "did:nuts:1" [.web, .nuts] .nuts = "did:nuts:1" ∧
+    storedSubject true [.web, .nuts] "uuid" "did:nuts:1" .web = "did:nuts:1" := by decide
 
 /-- `Create` = existence check + write in ONE atomic step. Every interleaving of requests whose steps are atomic is a
     sequence of `stepOp`s, so `subject_unique` (over `Reach`) covers any number of concurrent Creates of one name:
